@@ -247,9 +247,22 @@ class Feature(tuple, metaclass=abc.ABCMeta):
         return feature
 
 
-def identical(left: 'dsl.Feature', right: 'dsl.Feature') -> bool:
-    """Python-level (structural) identity of two features: same type and pairwise identical members."""
-    return left.__class__ is right.__class__ and tuple.__eq__(left, right)
+def identical(left: typing.Any, right: typing.Any) -> bool:
+    """Python-level (structural) identity of two DSL objects: same type and pairwise identical members all the way down.
+
+    Features and sources are (nested) tuples - their members are compared recursively here rather than with ``==`` which
+    is overloaded on features to build a DSL expression (and would choke on non-feature members like a missing clause).
+    """
+    if isinstance(left, tuple) or isinstance(right, tuple):
+        return (
+            isinstance(left, tuple)
+            and isinstance(right, tuple)
+            and left.__class__.__module__ == right.__class__.__module__
+            and left.__class__.__qualname__ == right.__class__.__qualname__
+            and len(left) == len(right)
+            and all(identical(l, r) for l, r in zip(left, right))
+        )
+    return left.__class__ is right.__class__ and left == right
 
 
 def featurize(handler: typing.Callable[..., typing.Any]) -> typing.Callable[..., typing.Any]:
